@@ -291,7 +291,7 @@ impl Scenario for S1 {
             .set("w_twice", J::U(sw.range(0, 1) as u128))
             .set("w_renew", J::U(sw.range(0, 1) as u128))
             .set("w_fail", J::U(if mix == "C11" { sw.range(1, 4) } else { sw.range(0, 1) } as u128))
-            .set("maxlen", J::U(*sw.pick(&[70u64, 300, 1400, 4096]) as u128))
+            .set("maxlen", J::U(if sw.chance(1, 48) { 70000 } else { *sw.pick(&[70u64, 300, 1400, 4096]) } as u128))
             .set("nops", J::U(sw.range(4, 40) as u128));
         J::obj().set("host", J::U(host as u128)).set("tasks", J::A(tasks)).set("swarm", swarm)
     }
